@@ -2,6 +2,7 @@
 transpose, modify a tensor in place, contract and transpose again.  Every value must be the exact contraction value
 of the network as it is at that moment (integer entries, so float arithmetic is exact)."""
 import itertools
+import json
 
 import numpy as np
 
@@ -71,3 +72,434 @@ def run(ctx):
             hist.append('modify (%d,%d)' % (r, c))
         if not ok:
             continue
+
+
+# =================================================================================================================
+# Round-3 strengthening: histories of read-only operations on ONE caller-owned network object, in two input regimes
+# that the main generator does not reach:
+#   (a) WIDE MAGNITUDES: per-tensor power-of-two scales 2^k with |k| up to ~900 that compensate each other so that the
+#       overall value is of order one, on networks padded with None at column / row ends;
+#   (b) LARGE BOND DIMENSIONS on tiny networks: one vertical (or, transposed, horizontal) bond of dimension D crossing
+#       powers of two up to 2^12..2^14, merged bonds up to ~10^5.
+# In both regimes float arithmetic stays exact (integer mantissas whose every partial sum is below 2^53, times a power
+# of two that is checked to stay inside the binary64 exponent range for every product a column sweep, a row sweep or a
+# ladder can form), so every value is compared with `==` against the exact value = integer contraction of the
+# mantissas (two independent evaluations) times 2^(sum of k).  After EVERY operation the caller's tensors must be
+# bit-identical to a deep copy taken before the first operation and the grid must hold the same objects.
+
+NOOP_KINDS = ('none', 'chi-big', 'tol-zero', 'mask-false')
+SCALE_LO, SCALE_HI = -1000, 960   # binary exponent window for mantissa(<2^53) * 2^scale: normal, finite
+
+
+def _noop_kwargs(kind, shape):
+    if kind == 'none':
+        return {}
+    if kind == 'chi-big':
+        return {'chi': 10 ** 7, 'tol': 0.0}
+    if kind == 'tol-zero':
+        return {'tol': 0}
+    if kind == 'mask-false':
+        return {'chi': 1, 'tol': 0.5, 'mask': np.zeros(shape, dtype=bool)}
+    raise ValueError(kind)
+
+
+def build_arrays(net):
+    """fresh caller-owned network: object grid of float64 arrays mantissa * 2^k (exact, np.ldexp)"""
+    tn = np.empty((net.R, net.C), dtype=object)
+    for r in range(net.R):
+        for c in range(net.C):
+            m = net.mant[r][c]
+            tn[r, c] = None if m is None else np.ldexp(m.astype(np.float64), int(net.k[r][c]))
+    return tn
+
+
+def exact_mantissa_value(net):
+    """exact integer contraction value of the mantissas, evaluated twice independently (float einsum inside the
+    exactness regime via Net.einsum_value on the unscaled mantissas, and an int64 einsum written here)"""
+    from harness.c11 import Net
+    flat = Net(net.R, net.C, net.mant, [[0] * net.C for _ in range(net.R)])
+    v1 = flat.einsum_value()
+    if v1 != int(v1):
+        raise RuntimeError('mantissa einsum is not an integer')
+    # independent: int64 einsum with explicit letters
+    letters = iter('abcdefghijklmnopqrstuvwxyzABCDEFGHIJKLMNOPQRSTUVWXYZ')
+    hl, vl, ops, subs = {}, {}, [], []
+    for r in range(net.R):
+        for c in range(net.C):
+            m = net.mant[r][c]
+            if m is None:
+                continue
+            sub = ''
+            sel = []
+            for leg, (key, store) in enumerate((((r - 1, c), vl), ((r, c), hl), ((r, c), vl), ((r, c - 1), hl))):
+                rr, cc = key
+                nb = {0: (r - 1, c), 1: (r, c + 1), 2: (r + 1, c), 3: (r, c - 1)}[leg]
+                inside = 0 <= nb[0] < net.R and 0 <= nb[1] < net.C and net.mant[nb[0]][nb[1]] is not None
+                if inside:
+                    if key not in store:
+                        store[key] = next(letters)
+                    sub += store[key]
+                    sel.append(slice(None))
+                else:
+                    sel.append(0)
+            ops.append(np.asarray(m[tuple(sel)], dtype=np.int64))
+            subs.append(sub)
+    n = len(ops)
+    # explicit path (fold the sites in row-major order): bounded cost, unlike numpy's path search
+    path = False if n <= 2 else ['einsum_path', (0, 1)] + [(0, n - 1 - i) for i in range(1, n - 1)]
+    v2 = int(np.einsum(','.join(subs) + '->', *ops, optimize=path)) if ops else None
+    if v2 != int(v1):
+        raise RuntimeError('the two exact oracles disagree (harness error): %r vs %r' % (v1, v2))
+    return v2
+
+
+def exactness_bound(net):
+    bound = 1
+    for row in net.mant:
+        for m in row:
+            if m is not None:
+                bound *= max(1, int(np.abs(m).max()))
+    for (_a, _b, d) in net.bonds():
+        bound *= d
+    return bound
+
+
+def scales_in_range(net):
+    """every product that a column sweep (any contiguous column range per row, then the ladder down the rows) or a
+    row sweep of the transposed network can form has its power-of-two scale inside [SCALE_LO, SCALE_HI]"""
+    K = [[net.k[r][c] if net.mant[r][c] is not None else 0 for c in range(net.C)] for r in range(net.R)]
+    KT = [list(col) for col in zip(*K)]
+
+    def intervals_ok(seq):
+        for i in range(len(seq)):
+            s = 0
+            for j in range(i, len(seq)):
+                s += seq[j]
+                if not SCALE_LO <= s <= SCALE_HI:
+                    return False
+        return True
+    for grid in (K, KT):
+        if not all(intervals_ok(row) for row in grid):
+            return False
+        if not intervals_ok([sum(row) for row in grid]):
+            return False
+    return True
+
+
+class History:
+    """operations on one caller-owned network object; every value is an exact Fraction (or an 'ERR ...' string)"""
+
+    def __init__(self, tt, tn):
+        from harness.c11 import to_frac
+        self.tt, self.tn, self.to_frac = tt, tn, to_frac
+        self.R, self.C = tn.shape
+        self.objs = [[tn[r, c] for c in range(self.C)] for r in range(self.R)]
+        self.snap = [[None if tn[r, c] is None else (tn[r, c].shape, tn[r, c].dtype.str, tn[r, c].tobytes())
+                      for c in range(self.C)] for r in range(self.R)]
+        self.kept_T = None
+        self.held = {}
+
+    def mutated(self):
+        """list of (r, c, description) where the caller's network no longer is what it was"""
+        out = []
+        for r in range(self.R):
+            for c in range(self.C):
+                t, s = self.tn[r, c], self.snap[r][c]
+                if t is not self.objs[r][c]:
+                    out.append((r, c, 'grid entry replaced by another object'))
+                elif t is not None and (t.shape, t.dtype.str, t.tobytes()) != s:
+                    was = np.frombuffer(s[2], dtype=s[1])
+                    now = np.asarray(t).flatten()
+                    d = 'shape/dtype changed' if (t.shape, t.dtype.str) != s[:2] else \
+                        'entries changed, e.g. %s -> %s' % next((float(a).hex(), float(b).hex()) for a, b in zip(was, now)
+                                                                if a.tobytes() != b.tobytes())
+                    out.append((r, c, d))
+        return out
+
+    def apply(self, op):
+        tt, tn, fr = self.tt, self.tn, self.to_frac
+        name = op['op']
+        kw = _noop_kwargs(op.get('kind', 'none'), tn.shape)
+        kwT = dict(kw)
+        if 'mask' in kwT:
+            kwT['mask'] = kwT['mask'].transpose()
+        try:
+            if name == 'contract':
+                return fr(tt.mps2d.contract(tn, start=op.get('start'), stop=op.get('stop'), step=op.get('step'), **kw))
+            if name == 'transposed':
+                return fr(tt.mps2d.contract(tt.mps2d.transpose(tn), step=op.get('step'), **kwT))
+            if name == 'keep-transpose':
+                self.kept_T = tt.mps2d.transpose(tn)
+                return None
+            if name == 'kept-transposed':
+                return fr(tt.mps2d.contract(self.kept_T, step=op.get('step'), **kwT))
+            if name == 'split':
+                c = op['c']
+                L, mL = tt.mps2d.contract(tn, stop=c, **kw)
+                Rr, mR = tt.mps2d.contract(tn, start=-1, stop=c - 1, step=-1, **kw)
+                return fr(tt.mps.inner_product(L, Rr) * mL * mR)
+            if name == 'split-transposed':
+                tnT = tt.mps2d.transpose(tn)
+                c = op['c']
+                L, mL = tt.mps2d.contract(tnT, stop=c, **kwT)
+                Rr, mR = tt.mps2d.contract(tnT, start=-1, stop=c - 1, step=-1, **kwT)
+                return fr(tt.mps.inner_product(L, Rr) * mL * mR)
+            if name == 'hold-left':      # partial results collected now, used later
+                self.held[('L', op['c'])] = tt.mps2d.contract(tn, stop=op['c'], **kw)
+                return None
+            if name == 'hold-right':
+                self.held[('R', op['c'])] = tt.mps2d.contract(tn, start=-1, stop=op['c'] - 1, step=-1, **kw)
+                return None
+            if name == 'combine-held':
+                L, mL = self.held[('L', op['c'])]
+                Rr, mR = self.held[('R', op['c'])]
+                return fr(tt.mps.inner_product(L, Rr) * mL * mR)
+            if name == 'bra-last':       # the decoders' pattern
+                bra, mult = tt.mps2d.contract(tn, stop=-1, **kw)
+                return fr(tt.mps.inner_product(bra, tn[:, -1]) * mult)
+            if name == 'first-ket':
+                ket, mult = tt.mps2d.contract(tn, start=-1, stop=0, step=-1, **kw)
+                return fr(tt.mps.inner_product(tn[:, 0], ket) * mult)
+        except Exception as e:  # noqa
+            from harness.common import exc_class
+            return 'ERR ' + exc_class(e) + ': ' + str(e)[:80]
+        raise ValueError(name)
+
+
+def history_ops(rng, R, C, n_extra, first=None):
+    """a history: every sweep direction, transposed, repeated, split at every column (directly and with the partial
+    results collected first), in random order, with random no-op truncation settings"""
+    def kind():
+        return rng.choice(NOOP_KINDS) if rng.random() < 0.35 else 'none'
+    ops = [{'op': 'contract'}, {'op': 'contract', 'step': -1}, {'op': 'contract', 'start': -1, 'step': -1},
+           {'op': 'transposed'}, {'op': 'transposed', 'step': -1}, {'op': 'contract'}]
+    if C >= 2:
+        ops += [{'op': 'bra-last'}, {'op': 'first-ket'}]
+        ops += [{'op': 'split', 'c': c} for c in range(1, C)]
+    if R >= 2:
+        ops += [{'op': 'split-transposed', 'c': c} for c in range(1, R)]
+    for _ in range(n_extra):
+        ops.append(dict(rng.choice(ops)))
+    rng.shuffle(ops)
+    for op in ops:
+        k = kind()
+        if k != 'none':
+            op['kind'] = k
+    if first is not None:
+        ops.insert(0, first)
+    # results collected before use: transpose kept from the start, partial contractions held across other operations
+    ops.insert(rng.randint(0, 1), {'op': 'keep-transpose'})
+    if C >= 2:
+        for c in range(1, C):
+            ops.insert(rng.randint(0, len(ops) // 2), {'op': 'hold-left', 'c': c})
+            ops.insert(rng.randint(0, len(ops) // 2), {'op': 'hold-right', 'c': c})
+        ops += [{'op': 'combine-held', 'c': c} for c in range(1, C)]
+    ops += [{'op': 'kept-transposed'}, {'op': 'kept-transposed', 'step': -1}, {'op': 'contract'}]
+    return ops
+
+
+def run_history(ctx, tt, net, ops, regime, exact, stop_at_first=True):
+    """apply ops to one fresh network object; report value and mutation violations with a replayable record.
+    Returns the list of values."""
+    tn = build_arrays(net)
+    h = History(tt, tn)
+    done, values = [], []
+    # replay records carry the whole network: keep their number bounded (the first ones are as good as the rest)
+    nrep = ctx.extra.setdefault('round3_violation_records', {})
+    told_mut = nrep.get('network-mutated', 0) >= 20
+    for op in ops:
+        v = h.apply(op)
+        done.append(op)
+        values.append(v)
+        ctx.count(None, False, '%s history op %s' % (regime, op['op']))
+        rep = {'net': net.to_json(), 'history': list(done), 'regime': regime, 'exact': str(exact)[:80]}
+        if not told_mut:
+            mut = h.mutated()
+            if mut:
+                told_mut = True
+                nrep['network-mutated'] = nrep.get('network-mutated', 0) + 1
+                ctx.violation('network-mutated', 'a read-only operation (contract / transpose / inner_product) changed a tensor '
+                              'of the caller\'s network: site (%d,%d): %s' % mut[0], dict(rep, mutated=[list(m) for m in mut]))
+        if v is not None and v != exact:
+            nrep[regime + '-history-value'] = nrep.get(regime + '-history-value', 0) + 1
+            if nrep[regime + '-history-value'] > 20:
+                break
+            ctx.violation(regime + '-history-value',
+                          'operation %d (%s) of a history on one network object does not return the exact contraction '
+                          'value' % (len(done), json.dumps(op)), dict(rep, got=str(v)[:80]))
+            if stop_at_first:
+                break
+    return values
+
+
+def _is_padded(net):
+    return any(m is None for row in net.mant for m in row)
+
+
+def gen_wide(rng, R, C):
+    """padded (mostly) network with compensating per-tensor scales of widely ranging magnitude"""
+    from harness.c11 import gen_net
+    for _ in range(50):
+        net = gen_net(rng, R, C, full=(rng.random() < 0.15), style=rng.choice(['int', 'pow2', 'sparse', 'ones']), cap=24)
+        occ = [(r, c) for r in range(R) for c in range(C) if net.mant[r][c] is not None]
+        if len(occ) < 2:
+            continue
+        # sites next to padding (an empty neighbour inside the grid, in the same row or column)
+        edge = [(r, c) for (r, c) in occ if any(0 <= r2 < R and 0 <= c2 < C and net.mant[r2][c2] is None
+                                                 for (r2, c2) in ((r - 1, c), (r + 1, c), (r, c - 1), (r, c + 1)))]
+        for _try in range(40):
+            k = [[0] * C for _ in range(R)]
+            for (r, c) in occ:
+                if rng.random() < 0.5:
+                    k[r][c] = rng.randint(-30, 30)
+            for _p in range(rng.randint(1, 3)):
+                a = rng.choice(edge) if (edge and rng.random() < 0.6) else rng.choice(occ)
+                b = rng.choice([x for x in occ if x != a])
+                mag = rng.choice([rng.randint(40, 120), rng.randint(120, 300), rng.randint(300, 600), rng.randint(300, 600),
+                                  rng.randint(600, 900)]) * rng.choice([-1, 1])
+                k[a[0]][a[1]] += mag
+                k[b[0]][b[1]] -= mag + rng.randint(-8, 8)
+            net.k = k
+            if scales_in_range(net) and abs(net.total_scale()) <= 60:
+                return net
+    return None
+
+
+def gen_bigbond(rng, R, C, D, pad=False):
+    """tiny network, all bonds 1-4 except ONE vertical bond of dimension D; entries in -2..2 (zeros included)"""
+    from harness.c11 import Net, BIG
+    nrng = np.random.default_rng(rng.getrandbits(64))
+    occ = [[True] * C for _ in range(R)]
+    if pad and R >= 3:
+        occ[R - 1][rng.choice([0, C - 1])] = False    # staircase: an empty site at a column end
+    cand = [(r, c) for r in range(R - 1) for c in range(C) if occ[r][c] and occ[r + 1][c]]
+    r0, c0 = rng.choice(cand)
+    vd = [[(D if (r, c) == (r0, c0) else rng.choice([2, 2, 3, 4, 1])) if (r + 1 < R and occ[r][c] and occ[r + 1][c]) else 1
+           for c in range(C)] for r in range(R)]
+    hd = [[rng.choice([1, 2, 2, 3]) if (c + 1 < C and occ[r][c] and occ[r][c + 1]) else 1 for c in range(C)] for r in range(R)]
+    # at least one neighbouring column has a vertical bond > 1 on the same link, so that merged bonds have two factors
+    others = [c for c in range(C) if c != c0 and occ[r0][c] and occ[r0 + 1][c]]
+    if others and all(vd[r0][c] == 1 for c in others):
+        vd[r0][rng.choice(others)] = rng.choice([2, 3, 4])
+    mant = [[None] * C for _ in range(R)]
+    for r in range(R):
+        for c in range(C):
+            if occ[r][c]:
+                shape = (vd[r - 1][c] if r > 0 else 1, hd[r][c], vd[r][c], hd[r][c - 1] if c > 0 else 1)
+                m = nrng.choice(np.array([-2, -1, -1, 0, 1, 1, 2], dtype=np.int64), size=shape)
+                if not m.any():
+                    m.flat[0] = 1
+                mant[r][c] = m
+    net = Net(R, C, mant, [[0] * C for _ in range(R)])
+    assert exactness_bound(net) < BIG, 'generator left the exactness regime'
+    return net, (r0, c0)
+
+
+def run_round3(ctx):
+    from fractions import Fraction
+    from qecsim import tensortools as tt
+    from harness.c11 import (BIG, canon_contract, model_cost, spec_cost, hexint, opt)
+    rng = ctx.rng
+    req, exp = [], []
+    ctx.rule += ('; plus histories of read-only operations (every sweep direction, transposed, repeated, split at every '
+                 'column, partial results and transposes collected first and used later, no-op truncation settings) on ONE '
+                 'caller-owned network object, with the caller\'s tensors compared bit-for-bit with a deep copy after every '
+                 'operation, in two further regimes: padded 2x2..4x4 networks with compensating per-tensor scales 2^k, '
+                 '|k| up to 900 (every product a sweep or ladder can form checked to stay in the binary64 exponent window), '
+                 'and tiny networks (2x2, 2x3, 3x2, ...) with one vertical or horizontal bond of dimension 7..8192 '
+                 '(thorough: ..20000), merged bonds up to ~10^5, entries in -2..2')
+
+    def model_lines(net, exact, rep):
+        """correspondence with the extracted engine where it is affordable (mantissa units)"""
+        tn = build_arrays(net)
+        enc, tscale = net.enc(), net.total_scale()
+        if model_cost(net, range(net.C)) <= 400000:
+            for s in (None, -1):
+                try:
+                    res = tt.mps2d.contract(tn, step=s)
+                except Exception as e:  # noqa
+                    from harness.common import exc_class
+                    res = 'ERR ' + exc_class(e)
+                req.append('contract %s _ _ _ _ %s _' % (enc, opt(s)))
+                exp.append(('contract', dict(rep, step=s), canon_contract(res, net, range(net.C))))
+            if spec_cost(net) <= 60000:
+                req.append('value %d %s' % (net.R, enc))
+                exp.append(('value(spec)', rep, hexint(exact, tscale)))
+
+    # ---- (a) wide magnitudes on padded networks ---------------------------------------------------------------
+    n_wide = ctx.pick(400, 1200)
+    made = 0
+    for it in range(n_wide):
+        R, C = rng.randint(2, 4), rng.randint(2, 4)
+        net = gen_wide(rng, R, C)
+        if net is None:
+            continue
+        assert exactness_bound(net) < BIG and scales_in_range(net)
+        made += 1
+        tscale = net.total_scale()
+        exact = Fraction(exact_mantissa_value(net)) * Fraction(2) ** tscale
+        ks = [net.k[r][c] for r in range(R) for c in range(C) if net.mant[r][c] is not None]
+        ctx.count('wide' + net.enc() + '@' + ','.join(map(str, ks)), _is_padded(net) and max(ks) - min(ks) > 200,
+                  'wide-magnitude net %dx%d%s' % (R, C, ' padded' if _is_padded(net) else ''),
+                  {'regime': 'wide', 'rows': R, 'cols': C, 'exp2_per_tensor': ks, 'exact_value': str(exact)[:60]}
+                  if made == 3 else None)
+        ops = history_ops(rng, R, C, ctx.pick(2, 6))
+        run_history(ctx, tt, net, ops, 'wide', exact)
+        if it % 4 == 0:
+            model_lines(net, exact, {'net': net.to_json(), 'regime': 'wide'})
+    ctx.extra['wide_magnitude_nets'] = made
+
+    # ---- (b) large bond dimensions on tiny networks -----------------------------------------------------------
+    Ds = [7, 16, 31, 32, 63, 64, 127, 128, 255, 256, 511, 512, 1023, 1024, 2047, 2048, 3000, 4095, 4096, 5000, 8192] + \
+        ctx.pick([], [8191, 12000, 16384, 20000] + [rng.randint(5, 9000) for _ in range(12)])
+    shapes = [(2, 2), (2, 3), (3, 2)] + ctx.pick([], [(3, 3), (2, 4)])
+    nb = 0
+    for D in Ds:
+        for (R, C) in shapes:
+            for rep_i in range(ctx.pick(2, 3)):
+                net, (r0, c0) = gen_bigbond(rng, R, C, D, pad=(rep_i == 1 or (R >= 3 and rng.random() < 0.3)))
+                exact = Fraction(exact_mantissa_value(net))
+                for orient, nt in (('vertical', net), ('horizontal', net.T())):
+                    nb += 1
+                    if orient == 'horizontal':
+                        if Fraction(exact_mantissa_value(nt)) != exact:
+                            raise RuntimeError('transposed oracle disagrees (harness error)')
+                    merged = max(int(np.prod([nt.mant[r][c].shape[0] for c in range(nt.C) if nt.mant[r][c] is not None] or [1]))
+                                 for r in range(nt.R))
+                    ctx.count('big%s%d@%dx%d#%d' % (orient, D, R, C, rep_i), True,
+                              'big-bond net %s D=%d' % (orient, D),
+                              {'regime': 'bigbond', 'rows': nt.R, 'cols': nt.C, 'big_bond': D, 'orientation': orient,
+                               'largest_merged_link_bond_of_column_sweep': merged, 'exact_value': str(exact)}
+                              if (D == 2048 and (R, C) == (2, 3)) else None)
+                    ops = history_ops(rng, nt.R, nt.C, 0)
+                    run_history(ctx, tt, nt, ops, 'bigbond', exact)
+                    if D <= 600:
+                        model_lines(nt, exact, {'net': nt.to_json(), 'regime': 'bigbond'})
+    ctx.extra['big_bond_nets'] = nb
+
+    out = ctx.model('c11', req, timeout=900)
+    for (fn, inp, impl), m in zip(exp, out):
+        ctx.cmp(fn, inp, impl, m)
+    ctx.extra['model_requests_round3'] = len(req)
+
+
+def replay_history(rep):
+    """replay of a 'history' record (called from harness.c11.replay)"""
+    from fractions import Fraction
+    from qecsim import tensortools as tt
+    from harness.c11 import Net
+    net = Net.from_json(rep['net'])
+    exact = Fraction(exact_mantissa_value(net)) * Fraction(2) ** net.total_scale()
+    print('exact value:', exact)
+    tn = build_arrays(net)
+    h = History(tt, tn)
+    bad = False
+    for i, op in enumerate(rep['history']):
+        v = h.apply(op)
+        mut = h.mutated()
+        flag = '' if (v is None or v == exact) else '   <-- WRONG'
+        print('%2d %-60s %s%s%s' % (i + 1, json.dumps(op), '-' if v is None else (float(v) if not isinstance(v, str) else v), flag,
+                                    ('   caller network mutated at %s' % [m[:2] for m in mut]) if mut else ''))
+        bad = bad or bool(flag) or bool(mut)
+    print('REPRODUCED' if bad else 'not reproduced')
+    return 1 if bad else 0
